@@ -5,6 +5,26 @@ HERE = os.path.dirname(os.path.abspath(__file__))
 PY = '/venv/bin/python -B /verif/check.py'
 
 CLAIMED = {
+ 'C01': dict(
+    technique='deterministic simulation, sampler seam: the 32-bit sampler draw is owned by the simulator and enumerated per case (all residues mod lcm of sequence lengths + boundary + random), cache state perturbed; oracle = independent three-valued reference semantics',
+    text='Seeded search over (hint, conforming object, configuration) triples; for every effective sampler draw all six entry points must accept, consume at most one draw and raise nothing, on cold and warm caches alike. The draw is the only nondeterminism of this property and is decided by the simulator; the hint/object generation around it is ordinary workload generation. Evidence, not proof.',
+    note='Trusted: the reference conforms() (a sufficient condition only), the generators, the seam (random.getrandbits replaced before any code is generated).',
+    design='5/C01'),
+ 'C02': dict(
+    technique='deterministic simulation, sampler seam: draws enumerated per case; oracles from the three-valued reference semantics (must-reject on every draw, reachability of the single bad index, is_random=False inspects item 0, acceptance implies a consistent path)',
+    text='Seeded search over (hint, violating object, position of the violation, configuration); must-reject objects are rejected at every entry point for every enumerated draw, a sequence with one bad item is rejected exactly when the draw selects it, is_random=False rejects a bad item 0 without consuming the sampler, and accepted arbitrary objects have a consistent item at each level. Evidence, not proof.',
+    note='Trusted: reference must_reject()/some_path() (sufficient / necessary conditions only), the generators, the sampler seam.',
+    design='5/C02'),
+ 'C03': dict(
+    technique='deterministic simulation, sampler seam: one draw shared by the six entry points (fast path and explanation path are linked only by that draw); relational oracle, no reference semantics needed',
+    text='Seeded search over (hint, object, configuration, draw): identical accept/reject at all six entry points under the same draw; rejections surface as exactly the configured class per pith kind, warning classes warn once and the call proceeds, the message names the hint, culprits begin with the rejected object, and no non-violation exception (e.g. the internal desynchronisation error) ever escapes. Evidence, not proof.',
+    note='Trusted: the sampler seam, the normalisation of "message names the hint" and of the documented repr stand-in for culprits that cannot be weakly referenced.',
+    design='5/C03'),
+ 'C18': dict(
+    technique='deterministic simulation, sampler seam: one draw shared by the option-configured check and the hand-rewritten check',
+    text='Seeded search over hints mentioning float/complex/overridden classes at any depth x objects x draws: is_pep484_tower=True and hint_overrides={A: B} must give, entry point by entry point and draw by draw, the verdict of the default configuration on the hand-rewritten hint; violation_*type settings change only the class of the signal. Evidence, not proof.',
+    note='Trusted: the hand-rewriting function over the hint DSL (class leaves incl. inside type[...]), the sampler seam.',
+    design='5/C18'),
  'C06': dict(
     technique='deterministic simulation: seeded hook-registration histories with conflict / body-raise / invalid-name faults against a declarative reference model in lock-step',
     text='Seeded search over histories of beartype_all/_package(s)/_this_package calls and (nested, raising) beartyping() blocks; after every operation the real registry is queried for ~40 module names and compared with a three-value reference model (nearest registered ancestor, skip/exclusion, restore-on-exit, failed call changes nothing, path hook present iff registry non-empty). Evidence, not proof.',
@@ -47,7 +67,7 @@ NOT_APPLICABLE = {
 }
 
 PENDING = {k: 'not claimed yet: the simulation engine for this property (DESIGN.md section 5) is not built at this commit' for k in
-           ['C01','C02','C03','C07','C09','C10','C11','C18']}
+           ['C07','C09','C10','C11']}
 
 def main():
     checks = []
